@@ -115,3 +115,120 @@ Lemma ends_lit_body s : ends_with_bsl (lit_body s) = false.
 Proof.
   unfold lit_body. destruct (ends_with_bsl s) eqn:E; [rewrite ends_app; reflexivity|]. now rewrite ends_double_bsl.
 Qed.
+
+(* ---------- the scanner on a literal ---------- *)
+Definition close_any_tag : tag := Tag close_any true [].
+Definition otag (nm : str) : tag := Tag (open_tag nm) false nm.
+Definition ctag (nm : str) : tag := Tag (close_tag nm) true nm.
+
+Lemma tagged_eq style text : tagged style text = open_tag style ++ text ++ close_any.
+Proof. unfold tagged, open_tag. cbn [app]. rewrite <- app_assoc. reflexivity. Qed.
+Lemma cut_lt_app tag a b : cut_lt tag (a ++ b) = cut_lt tag a ++ cut_lt tag b.
+Proof. unfold cut_lt. apply flat_map_app. Qed.
+Lemma literal_eq s tag : literal s tag = cut_lt tag (lit_body s).
+Proof. unfold literal, lit_body. destruct (ends_with_bsl s); [|reflexivity]. rewrite cut_lt_app. reflexivity. Qed.
+
+(* the segments the scanner finds inside the (cut) body x of a literal, and the text pending after it; cur: the text
+   pending before it.  After every '<' of the body comes "</>", then the tag again: these are the only tags found *)
+Fixpoint inner_segs (ot : tag) (x cur : str) : list (str * tag) :=
+  match x with
+  | [] => []
+  | c :: r => if N.eqb c LT then (cur ++ [LT], close_any_tag) :: ([], ot) :: inner_segs ot r [] else inner_segs ot r (cur ++ [c])
+  end.
+Fixpoint inner_cur (x cur : str) : str :=
+  match x with
+  | [] => cur
+  | c :: r => if N.eqb c LT then inner_cur r [] else inner_cur r (cur ++ [c])
+  end.
+
+Lemma lex_close_any done cur :
+  fold_left lex_step close_any {| l_done := done; l_cur := cur; l_cand := CText |}
+  = {| l_done := done ++ [(cur, close_any_tag)]; l_cur := []; l_cand := CText |}.
+Proof. unfold close_any. cbn [fold_left]. rewrite step_text_lt, step_open_slash. reflexivity. Qed.
+Lemma lex_lt_close_any done cur :
+  fold_left lex_step (LT :: close_any) {| l_done := done; l_cur := cur; l_cand := CText |}
+  = {| l_done := done ++ [(cur ++ [LT], close_any_tag)]; l_cur := []; l_cand := CText |}.
+Proof.
+  unfold close_any. cbn [fold_left]. rewrite step_text_lt.
+  assert (lex_step {| l_done := done; l_cur := cur; l_cand := COpen |} LT = {| l_done := done; l_cur := cur ++ [LT]; l_cand := COpen |}) as ->.
+  { unfold lex_step. cbn. reflexivity. }
+  rewrite step_open_slash. reflexivity.
+Qed.
+Lemma lex_open nm : tag_name nm -> forall done cur,
+  fold_left lex_step (open_tag nm) {| l_done := done; l_cur := cur; l_cand := CText |}
+  = {| l_done := done ++ [(cur, otag nm)]; l_cur := []; l_cand := CText |}.
+Proof. intros Hn done cur. exact (lex_tag false nm Hn done cur). Qed.
+Lemma lex_close nm : tag_name nm -> forall done cur,
+  fold_left lex_step (close_tag nm) {| l_done := done; l_cur := cur; l_cand := CText |}
+  = {| l_done := done ++ [(cur, ctag nm)]; l_cur := []; l_cand := CText |}.
+Proof. intros Hn done cur. exact (lex_tag true nm Hn done cur). Qed.
+
+Lemma lex_cut tag : tag_name tag -> forall x done cur,
+  fold_left lex_step (cut_lt tag x) {| l_done := done; l_cur := cur; l_cand := CText |}
+  = {| l_done := done ++ inner_segs (otag tag) x cur; l_cur := inner_cur x cur; l_cand := CText |}.
+Proof.
+  intros Hn. induction x as [|c r IH]; intros done cur; [cbn; now rewrite app_nil_r|].
+  change (cut_lt tag (c :: r)) with ((if N.eqb c LT then LT :: close_any ++ LT :: tag ++ [GT] else [c]) ++ cut_lt tag r).
+  rewrite fold_left_app. cbn [inner_segs inner_cur]. destruct (N.eqb_spec c LT) as [->|Hc].
+  - change (LT :: close_any ++ LT :: tag ++ [GT]) with ((LT :: close_any) ++ open_tag tag).
+    rewrite fold_left_app, lex_lt_close_any, (lex_open tag Hn), IH, <- !app_assoc. reflexivity.
+  - rewrite (lex_text [c]); [|constructor; [exact Hc|constructor]]. apply IH.
+Qed.
+
+(* ---------- a line: literals and plain separators ---------- *)
+Inductive piece := PRaw (t : str) | PLit (tag s : str) | PNamed (nm s : str).
+Definition piece_str (p : piece) : str :=
+  match p with
+  | PRaw t => t
+  | PLit tag s => tagged tag (literal s tag)
+  | PNamed nm s => open_tag nm ++ literal s nm ++ close_tag nm
+  end.
+Definition piece_shown (p : piece) : str := match p with PRaw t => t | PLit _ s => shown s | PNamed _ s => shown s end.
+Definition line_str (ps : list piece) : str := flat_map piece_str ps.
+Definition safe (t : str) : Prop := Forall (fun c => c <> LT /\ c <> BSL) t.
+Definition resolvable (sty : styles) (tag : str) : Prop := exists p, resolve sty (py_lower tag) = Ok (Some p).
+Definition piece_ok (sty : styles) (p : piece) : Prop :=
+  match p with
+  | PRaw t => safe t
+  | PLit tag _ => tag_name tag /\ resolvable sty tag
+  | PNamed nm _ => tag_name nm /\ resolvable sty nm
+  end.
+Definition pieces_ok (sty : styles) (ps : list piece) : Prop := Forall (piece_ok sty) ps.
+
+Lemma safe_no_lt t : safe t -> no_lt t. Proof. intros H. eapply Forall_impl; [|exact H]. intros c [? ?]; auto. Qed.
+Lemma safe_no_bsl t : safe t -> no_bsl t. Proof. intros H. eapply Forall_impl; [|exact H]. intros c [? ?]; auto. Qed.
+
+(* what the scanner makes of a piece *)
+Definition piece_segs (p : piece) (cur : str) : list (str * tag) :=
+  match p with
+  | PRaw _ => []
+  | PLit tag s => (cur, otag tag) :: inner_segs (otag tag) (lit_body s) [] ++ [(inner_cur (lit_body s) [], close_any_tag)]
+  | PNamed nm s => (cur, otag nm) :: inner_segs (otag nm) (lit_body s) [] ++ [(inner_cur (lit_body s) [], ctag nm)]
+  end.
+Definition piece_cur (p : piece) (cur : str) : str := match p with PRaw t => cur ++ t | _ => [] end.
+Fixpoint line_segs (ps : list piece) (cur : str) : list (str * tag) :=
+  match ps with [] => [] | p :: r => piece_segs p cur ++ line_segs r (piece_cur p cur) end.
+Fixpoint line_cur (ps : list piece) (cur : str) : str :=
+  match ps with [] => cur | p :: r => line_cur r (piece_cur p cur) end.
+
+Lemma lex_piece sty p : piece_ok sty p -> forall done cur,
+  fold_left lex_step (piece_str p) {| l_done := done; l_cur := cur; l_cand := CText |}
+  = {| l_done := done ++ piece_segs p cur; l_cur := piece_cur p cur; l_cand := CText |}.
+Proof.
+  destruct p as [t|tag s|nm s]; cbn [piece_ok piece_str piece_segs piece_cur].
+  - intros Ht done cur. rewrite (lex_text t (safe_no_lt t Ht)), app_nil_r. reflexivity.
+  - intros [Hn _] done cur. rewrite tagged_eq, literal_eq, !fold_left_app, (lex_open tag Hn), (lex_cut tag Hn), lex_close_any.
+    rewrite <- !app_assoc. reflexivity.
+  - intros [Hn _] done cur. rewrite literal_eq, !fold_left_app, (lex_open nm Hn), (lex_cut nm Hn), (lex_close nm Hn).
+    rewrite <- !app_assoc. reflexivity.
+Qed.
+Lemma lex_line_fold sty : forall ps, pieces_ok sty ps -> forall done cur,
+  fold_left lex_step (line_str ps) {| l_done := done; l_cur := cur; l_cand := CText |}
+  = {| l_done := done ++ line_segs ps cur; l_cur := line_cur ps cur; l_cand := CText |}.
+Proof.
+  induction 1 as [|p r Hp Hr IH]; intros done cur; [cbn; now rewrite app_nil_r|].
+  change (line_str (p :: r)) with (piece_str p ++ line_str r).
+  rewrite fold_left_app, (lex_piece sty p Hp), IH. cbn [line_segs line_cur]. now rewrite app_assoc.
+Qed.
+Lemma lex_line sty ps : pieces_ok sty ps -> lex (line_str ps) = (line_segs ps [], line_cur ps []).
+Proof. intros H. unfold lex, lex_init. rewrite (lex_line_fold sty ps H). unfold lex_end. cbn. now rewrite app_nil_r. Qed.
